@@ -155,15 +155,20 @@ structure AcceptedFacts (W : World E L) (T : Tables E) (c : Ctx E) (e : E) (m : 
   chaosMean : ∃ ratios, m.chaos = meanRatio ratios ∧ ∀ r ∈ ratios, ∃ t, W.mess t c.thr = .ok r
   cohMerged : ∃ cdl, W.merge cdl = .ok m.cohs
   remainder : RemainderOk W T c e
+  /-- the exact chunk analysis behind the chaos value -/
+  chunksFact : ∃ p acc, p.lazy = lazyOf T c e ∧ p.bomHere = bomHereOf c e ∧ p.startIdx = startIdxOf c e ∧
+    (lazyOf T c e = false → p.payload = m.text) ∧ (lazyOf T c e = true → p.payload = none) ∧
+    probeChunks W T c e p = .ok acc ∧ m.chaos = meanRatio acc.ratios ∧ acc.lazyHard = false ∧
+    cdsOf W T c e acc = (cdsOf W T c e acc) ∧ (∃ cdl, cdsOf W T c e acc = .ok cdl ∧ W.merge cdl = .ok m.cohs)
 
 theorem accepted_facts {W : World E L} {T : Tables E} {c : Ctx E} {soft : List E} {e : E} {m : Match E L}
     (h : ProbeShape W T c soft e (.accepted m)) : AcceptedFacts W T c e m := by
   cases h with
   | accepted p acc m' hp hc hr hs ha =>
-    obtain ⟨m', cdl, merged, hv, _, _, hm⟩ := probeAccept_spec ha
+    obtain ⟨m', cdl, merged, hv, hcds, hmerge, hm⟩ := probeAccept_spec ha
     cases hv
     have hmm := mkMatch_spec hm
-    obtain ⟨hb, _, _, hnb, _⟩ := probePrepare_go hp
+    obtain ⟨hb, hsi, hlz, hnb, _, sl0, t00, _, _, hpay⟩ := probePrepare_go hp
     have hsf := hs
     unfold softFailCond at hsf
     simp only [Bool.or_eq_false_iff, decide_eq_false_iff_not, Nat.not_le] at hsf
@@ -177,9 +182,15 @@ theorem accepted_facts {W : World E L} {T : Tables E} {c : Ctx E} {soft : List E
         omega
     refine ⟨hmm.1, hmm.2.1, hmm.2.2.2.2.2.1, by rw [hmm.2.2.2.1, hb], ?_, hnb, textOk_of_prepare hp hm,
       ⟨acc.ratios, hmm.2.2.1, probeChunks_ratios hc⟩, ⟨cdl, by rw [hmm.2.2.2.2.1]; assumption⟩,
-      remainder_ok hp hr hlh⟩
-    rw [hmm.2.2.1]
-    exact hsf.1
+      remainder_ok hp hr hlh,
+      ⟨p, acc, hlz, hb, hsi, ?_, ?_, hc, hmm.2.2.1, hlh, rfl, cdl, hcds, by rw [hmm.2.2.2.2.1]; exact hmerge⟩⟩
+    · rw [hmm.2.2.1]
+      exact hsf.1
+    · intro hl
+      have : p.payload = some t00 := by rw [hpay]; simp [payloadOf, hl]
+      rw [this, hmm.2.2.2.2.2.2.1 t00 this]
+    · intro hl
+      rw [hpay]; simp [payloadOf, hl]
 
 /-- facts about a prepared fallback entry -/
 structure FallbackFacts (W : World E L) (T : Tables E) (c : Ctx E) (e : E) (fb : Match E L) : Prop where
